@@ -55,6 +55,29 @@ package subscriber
 //@   ensures !locked(sessionID in m.sessions) ==> relIPv4 == 0 && relIPv6 == 0 && termEvents == 0
 //@   sets termCalls = termCalls + 1
 
+//@ iface AddressAllocator.AllocateIPv4(ctx, session, poolID)
+//@   modifies nothing
+//@   sets gotIPv4 = gotIPv4 + ite(err == nil, 1, 0)
+
+//@ iface AddressAllocator.AllocateIPv6(ctx, session, poolID)
+//@   modifies nothing
+//@   sets gotIPv6 = gotIPv6 + ite(err == nil, 1, 0)
+
+// AssignAddress allocates outside the manager's lock. Every address it obtains is either recorded on
+// a session that is (still) in the table in the critical section that records it -- so that the
+// session's termination will release it -- or given straight back to the allocator: a session that
+// ended while the allocator was working must not leave an address behind ("ending a session by any
+// path releases everything", C16). Acquisitions of m.mu in program order: 1 look-up, 2 IPv4 record,
+// 3 IPv6 record, 4 state update.
+//@ func (m *Manager) AssignAddress
+//@   ghost gotIPv4 mathint = 0
+//@   ghost gotIPv6 mathint = 0
+//@   ghost relIPv4 mathint = 0
+//@   ghost relIPv6 mathint = 0
+//@   ensures gotIPv4 == 1 ==> (lockedN(2, sessionID in m.sessions) && lockedN(2, m.sessions[sessionID]) == session) || relIPv4 == 1
+//@   ensures gotIPv4 == 0 ==> relIPv4 == 0
+//@   ensures relIPv4 <= 1 && relIPv6 <= 1 && (relIPv4 == 1 || relIPv6 == 1 ==> err != nil)
+
 //@ func NewManager
 //@   ensures result != nil && fresh(result) && result.nonnil && result.live
 
